@@ -467,3 +467,5 @@ SUBS = [
     Sub("schedule", lambda tier: schedules(tier), check_schedule, quick=2400, thorough=20000),
     Sub("env_default", lambda tier: env_cases(tier), check_env, quick=40, thorough=40),
 ]
+
+RULE += ' Also: reflected and neutral-looking array operands (zeros on the left of +, ones lists, -, in-place forms), NaN bins next to negative ones, bodies left by BaseExceptions; the environment sub-check runs a generated program from the process default in the main or a fresh thread.'
